@@ -19,14 +19,16 @@ func init() { register("c07", cmdC07) }
 // abstract programs (the terms of specs/Linker.tla)
 
 type aRef struct {
-	Q string `json:"q"`
-	N string `json:"n"`
+	Q  string `json:"q"`
+	N  string `json:"n"`
+	EQ string `json:"eq,omitempty"` // q = "list": how the element is named ("" bare, "base", or an include)
 }
 
 type aCVal struct {
-	K string `json:"k"`
-	Q string `json:"q"`
-	N string `json:"n"`
+	K  string `json:"k"`
+	Q  string `json:"q"`
+	N  string `json:"n"`
+	FV *aCVal `json:"fv,omitempty"` // k = "list": the one item of the literal
 }
 
 type aDef struct {
@@ -52,6 +54,9 @@ type aProg struct {
 }
 
 func refText(r *aRef) string {
+	if r.Q == "list" {
+		return "list<" + refText(&aRef{Q: r.EQ, N: r.N}) + ">"
+	}
 	switch r.Q {
 	case "base", "":
 		return r.N
@@ -70,6 +75,11 @@ func cvalText(v *aCVal) string {
 		return `{"f": 1}`
 	case "emap":
 		return `{}`
+	case "list":
+		if v.FV == nil {
+			return "[]"
+		}
+		return "[" + cvalText(v.FV) + "]"
 	case "ref":
 		if v.Q == "" {
 			return v.N
@@ -244,6 +254,9 @@ func projType(t compile.TypeSpec) wj.J {
 		return wj.J{"k": "ent", "key": []string{modName(x.File), x.Name}, "n": ""}
 	case *compile.EnumSpec:
 		return wj.J{"k": "ent", "key": []string{modName(x.File), x.Name}, "n": ""}
+	case *compile.ListSpec:
+		// a list root is compared together with the root of its element type
+		return wj.J{"k": "list", "key": []string{"", ""}, "n": "", "e": projType(compile.RootTypeSpec(x.ValueSpec))}
 	case *compile.I32Spec, *compile.StringSpec, *compile.BoolSpec, *compile.I8Spec, *compile.I16Spec, *compile.I64Spec, *compile.DoubleSpec, *compile.BinarySpec:
 		return wj.J{"k": "base", "key": []string{"", ""}, "n": t.ThriftName()}
 	}
@@ -299,7 +312,8 @@ func illTyped(v compile.ConstantValue, t compile.TypeSpec, path string, depth in
 			bad()
 		}
 	case *compile.EnumSpec:
-		if _, ok := v.(compile.EnumItemReference); !ok {
+		// an item of THIS enum (same definition), not of another one that is spelled alike
+		if r, ok := v.(compile.EnumItemReference); !ok || r.Enum != rt {
 			bad()
 		}
 	case *compile.ListSpec:
